@@ -509,9 +509,23 @@ theorem attribs_source_as_modelled :
     Generated.C01.attribsOwner = ownerSrc ∧ Generated.C01.dimReSrc = dimReSrc ∧
     Generated.C01.attribClassify = classifySrc ∧ Generated.C01.blockDataCleanup = blockDataCleanupSrc ∧
     (allCfgs.any fun cfg =>
-      Generated.C01.attribStmt == stmtSrc cfg && Generated.C01.processCodeUnit == processCodeUnitSrc cfg
+      ((Generated.C01.attribStmt == stmtSrc cfg && Generated.C01.attrKeyFn == [])
+        || (Generated.C01.attribStmt == stmtSrcK cfg true && Generated.C01.attrKeyFn == attrKeySrc))
+      && Generated.C01.processCodeUnit == processCodeUnitSrc cfg
       && Generated.C01.processBlockData == processBlockDataSrc cfg && Generated.C01.externalFilter == filterSrc cfg) = true := by
   decide
+
+open Ford.Attribs in
+/-- Repair cbe48be files the items of an access / SAVE / OPTIONAL ... statement under `_attr_key(name)` instead of
+    `name.strip().lower()`.  For every item and every name without a parenthesis - every variable name - the two keys
+    select the same items, so every theorem about `Attribs.contrib` (which compares `lower (strip it)` with the
+    variable's name) holds for both spellings of the source accepted by `attribs_source_as_modelled`. -/
+theorem attr_key_repair_invisible_to_variables (it n : Str) (hn : n.contains '(' = false) :
+    (attrKey it = n ↔ lower (strip it) = n) := attrKey_same_items it n hn
+
+open Ford.Attribs in
+/-- non-vacuity: `public :: Operator ( + )` is filed under `operator(+)`, `save :: X ` under `x` as before -/
+example : attrKey (chars! " Operator ( + ) ") = (chars! "operator(+)") ∧ attrKey (chars! " X ") = (chars! "x") := by decide
 
 open Ford.Attribs in
 /-- non-vacuity (the situation of `real, save :: u, v` / `target :: u` / `dimension v(3)`): the hypotheses hold,
